@@ -24,11 +24,14 @@ def run(ck, progs):
                      "re-reads it atomically on every iteration")
     ck.rule("C07.5", "the thread's maximum recorded termination time never decreases while LPs it covers may still be terminated: it is written "
                      "only by the forward handler (as a running maximum, for every order type) and by the vote (set to SIMTIME_MAX)")
+    ck.rule("C07.6", "a vote is cast once: termination_on_gvt interpreted twice in a row (no LP left, recorded times below the GVT, GVT below the "
+                     "termination time) votes the first time and not the second")
     for cfg, P in progs.items():
         _max_t(ck, P, cfg)
         _conservation(ck, P, cfg)
         _undo_after_rollback(ck, P, cfg)
         _votes(ck, P, cfg)
+        _vote_once(ck, P, cfg)
         _broadcast(ck, P, cfg)
 
 
@@ -247,6 +250,40 @@ def _max_t(ck, P, cfg):
 
 
 # --------------------------------------------------------------------------------------------------------------
+def _vote_once(ck, P, cfg):
+    """A thread's vote is irrevocable and single: once it has voted because its LPs are done, a later GVT (still below the termination
+    time) must not make it vote again -- a second decrement of the vote counter stands for a thread that has NOT voted and the
+    termination notice goes out early.  termination_on_gvt is interpreted twice in a row on the state the first call leaves."""
+    from .. import interp
+    f = P.fn("termination_on_gvt")
+    inst = "vote-once@termination_on_gvt"
+    roles = _roles(P)
+    gname = f.params[0]["name"]
+
+    def votes(o):
+        return len([1 for name, a, e in o.calls if e.k == "AtomicExpr" and Q.atomic_kind(e) == "rmw" and Q.atomic_target(e)[1] == "thr_to_end"])
+    base = {gname: 10.0, "global_config.termination_time": 1e300, "lps_to_end": 0, "max_t": 5.0}
+    stubs = {"mpi_control_msg_broadcast": lambda a, e: 0}
+    o1 = interp.Interp(f, stubs=stubs, max_visits=4).run(base)
+    o1 = [o for o in o1 if o.how == "exit"]
+    if not o1 or any(votes(o) != 1 for o in o1):
+        ck.inconclusive("C07.6", inst, f.where, "the voting path could not be evaluated (no LP left, recorded maximum below the GVT): %s" % [votes(o) for o in o1], cfg)
+        return
+    again = 0
+    for o in o1:
+        env2 = dict(o.env)
+        env2[gname] = 20.0
+        o2 = [x for x in interp.Interp(f, stubs=stubs, max_visits=4).run(env2) if x.how == "exit"]
+        if not o2:
+            ck.inconclusive("C07.6", inst, f.where, "the second call could not be evaluated", cfg)
+            return
+        again = max(again, max(votes(x) for x in o2))
+    if again:
+        ck.violated("C07.6", inst, f.where, "a thread that has voted (no LP left, times below the GVT) votes again at the next GVT: the vote counter is decremented twice for one thread, so it reaches the last-voter value while another thread still has LPs to end, and the termination notice is broadcast early", cfg)
+    else:
+        ck.holds("C07.6", inst, f.where, "after a vote the next call (GVT still below the termination time) does not vote again", cfg)
+
+
 def _undo_after_rollback(ck, P, cfg):
     sites = P.callers("do_rollback")
     for c in sites:
